@@ -85,7 +85,8 @@ def main():
       for ak in ("auto", "auto_po2"):
         use01 = rnd.random() < 0.3
         g = rnd.choice(GRIDS)
-        bounds = rnd.choice([(None, None), (None, None), (g + 2, None), (None, g + 3), (g + 1, g + 4), (g - 3, g + 8)]) \
+        bounds = rnd.choice([(None, None), (None, None), (g + 2, None), (None, g + 3), (g + 1, g + 4), (g - 3, g + 8),
+                             (0, None), (None, 0), (0, 0)]) \
             if ak == "auto_po2" else (None, None)
         sa_arg = axis_arg(sa, rnd)
         if eps:
